@@ -1639,3 +1639,134 @@ M("r8-dead-wires-skipped", "C10", "fire R8", "src/register_circuit.rs",
                 continue;
             }
             let inst = match w {""", "seed C10-d: wires that nobody reads get no instruction (and are not counted)")
+
+# ---------------------------------------------------------------- C09 L7 through helpers
+M2("l7-quiet-array-helper", "C09", "quiet", [
+  ("src/literal.rs", """            Type::Array(ty, size) => {
+                let ty_size = ty.size_in_bits_for_defs(checked, const_sizes);
+                let mut elems = vec![];
+                let mut i = 0;
+                for _ in 0..*size {
+                    let bits = &bits[i..i + ty_size];
+                    elems.push(Literal::from_unwrapped_bits(
+                        checked,
+                        ty,
+                        bits,
+                        const_sizes,
+                    )?);
+                    i += ty_size;
+                }
+                Ok(Literal::Array(elems))
+            }""",
+   """            Type::Array(ty, size) => Literal::array_from_bits(checked, ty, *size, bits, const_sizes),"""),
+  ("src/literal.rs", """    /// Encodes the literal as bits, looking up enum defs in the program.""",
+   """    fn array_from_bits(
+        checked: &TypedProgram,
+        elem_ty: &Type,
+        size: usize,
+        bits: &[bool],
+        const_sizes: &HashMap<String, usize>,
+    ) -> Result<Self, EvalError> {
+        let ty_size = elem_ty.size_in_bits_for_defs(checked, const_sizes);
+        let mut elems = vec![];
+        let mut i = 0;
+        for _ in 0..size {
+            let bits = &bits[i..i + ty_size];
+            elems.push(Literal::from_unwrapped_bits(checked, elem_ty, bits, const_sizes)?);
+            i += ty_size;
+        }
+        Ok(Literal::Array(elems))
+    }
+
+    /// Encodes the literal as bits, looking up enum defs in the program.""")], "behaviour-preserving: one array arm moved into a helper with the same Range loop")
+M2("l7-array-helper-chunks", "C09", "fire L7", [
+  ("src/literal.rs", """            Type::Array(ty, size) => {
+                let ty_size = ty.size_in_bits_for_defs(checked, const_sizes);
+                let mut elems = vec![];
+                let mut i = 0;
+                for _ in 0..*size {
+                    let bits = &bits[i..i + ty_size];
+                    elems.push(Literal::from_unwrapped_bits(
+                        checked,
+                        ty,
+                        bits,
+                        const_sizes,
+                    )?);
+                    i += ty_size;
+                }
+                Ok(Literal::Array(elems))
+            }""",
+   """            Type::Array(ty, size) => Literal::array_from_bits(checked, ty, *size, bits, const_sizes),"""),
+  ("src/literal.rs", """    /// Encodes the literal as bits, looking up enum defs in the program.""",
+   """    fn array_from_bits(
+        checked: &TypedProgram,
+        elem_ty: &Type,
+        size: usize,
+        bits: &[bool],
+        const_sizes: &HashMap<String, usize>,
+    ) -> Result<Self, EvalError> {
+        let elem_size = elem_ty.size_in_bits_for_defs(checked, const_sizes);
+        let elems = bits
+            .chunks_exact(elem_size)
+            .take(size)
+            .map(|bits| Literal::from_unwrapped_bits(checked, elem_ty, bits, const_sizes))
+            .collect::<Result<Vec<_>, _>>()?;
+        Ok(Literal::Array(elems))
+    }
+
+    /// Encodes the literal as bits, looking up enum defs in the program.""")], "seed C09-d: helper decodes with chunks_exact(elem_size).take(size): zero-width elements panic")
+
+# ---------------------------------------------------------------- more seeds of batch seven as mutants
+M("s5-mul-by-zero-literal-width", "C05", "fire S5", "src/compile.rs",
+  """                        if n == 0 {
+                            continue;
+                        }
+                        if n < bits {""",
+  """                        if n == 0 {
+                            return vec![0; bits as usize];
+                        }
+                        if n < bits {""", "seed C05-c: x * 0 returns as many wires as the literal's written suffix has bits")
+M("g5-eval-bulk-copies-inputs", "C16", "fire G5", "src/register_circuit.rs",
+  """        let mut regs = vec![false; self.max_reg_count];
+""",
+  """        let mut regs = vec![false; self.max_reg_count];
+        let input_bits = inputs.concat();
+        regs[..input_bits.len()].copy_from_slice(&input_bits);
+""", "seed C16-d: registers pre-filled with all input bits (slice bound from the inputs)")
+M("m5-pattern-fields-unsorted", "C08", "fire M5", "src/parse.rs",
+  """                        self.expect(&TokenEnum::RightBrace)?;
+                        fields.sort_by(|(f1, _), (f2, _)| f1.cmp(f2));
+                        if ignore_remaining_fields {""",
+  """                        self.expect(&TokenEnum::RightBrace)?;
+                        if ignore_remaining_fields {""", "seed C08-d: struct pattern fields keep their source order")
+M("k6-table-value-from-bits", "C12", "fire K6", "src/compile.rs",
+  """                Type::Signed(_) => {
+                    let n = resolve_const_expr_signed(&const_def.value, &consts_signed);
+                    consts_signed.insert(const_name.clone(), n);
+                }""",
+  """                Type::Signed(_) => {
+                    let bits = env.get(const_name).unwrap();
+                    let n = bits.iter().fold(0u64, |n, bit| (n << 1) | *bit as u64);
+                    consts_signed.insert(const_name.clone(), n as i64);
+                }""", "seed C12-d: table value folded from the bound bits without sign extension")
+M("b3-first-output-from-gate-count", "C11", "fire B3", "src/convert.rs",
+  """            let Some(first_output_wire) = wires_num.checked_sub(num_output_wires) else {
+                return Err(FromBristolError::MalformedLine(line_str));
+            };""",
+  """            let Some(first_output_wire) = (input_wires_num + _gates_num).checked_sub(num_output_wires) else {
+                return Err(FromBristolError::MalformedLine(line_str));
+            };""", "seed C11-c (simplified): offset derived from the declared gate count instead of the wire count")
+M("v8-assign-read-tree-fewer-layers", "C01", "fire V8", "src/compile.rs",
+  """                            let out_of_bounds_elem = 1;
+                            for mux_layer in (0..index.len()).rev() {
+                                let mut muxed_array = Vec::new();
+                                let s = index[mux_layer];
+                                let mut i = 0;
+                                while i < collection.len() {""",
+  """                            let out_of_bounds_elem = 1;
+                            let mux_layers = max(num_elems, 1).ilog2() as usize;
+                            for mux_layer in (index.len() - mux_layers..index.len()).rev() {
+                                let mut muxed_array = Vec::new();
+                                let s = index[mux_layer];
+                                let mut i = 0;
+                                while i < collection.len() {""", "seed C01-d: the accessor copy of the read tree uses only floor(log2(n)) index bits")
